@@ -64,6 +64,21 @@ def maxOf : List K → Option K
 def two : K := ((2 : Nat) : K)
 def v3zero : V3 K := ⟨0, 0, 0⟩
 
+/-! numpy array primitives used by the definitions generated from the source (`Generated/PNEnergy.lean`) -/
+
+/-- `(A.T / s).T`: row `i` of an (n, 3) array divided by `s[i]`. -/
+def npRowDiv (a : List (V3 K)) (s : List K) : List (V3 K) := List.zipWith (fun (v : V3 K) (t : K) => v.map (· / t)) a s
+/-- `np.vstack([a, b, c]).T`: the (n, 3) array with columns `a, b, c`. -/
+def npVstack3T : List K → List K → List K → List (V3 K)
+  | a :: as, b :: bs, c :: cs => ⟨a, b, c⟩ :: npVstack3T as bs cs
+  | _, _, _ => []
+/-- elementwise product of two rows. -/
+def npMulV (a b : V3 K) : V3 K := ⟨a.x * b.x, a.y * b.y, a.z * b.z⟩
+/-- `np.sum` of an (n, 3) array. -/
+def npSumV (a : List (V3 K)) : K := lsum (a.map (fun v => v.x + v.y + v.z))
+/-- `-τ` of a 3 x 3 array. -/
+def negM (m : M3 K) : M3 K := ⟨-m.r0, -m.r1, -m.r2⟩
+
 end helpers
 
 /-! ### GammaSurface.fit: 3x3 tiling and the selection window -/
@@ -525,6 +540,17 @@ inductive Op (K : Type) where
   | setD (d : List (V3 K))
   | solve (kw : SolveKw K) (res : List K)
   | load (o : Obj K)
+
+/-- defaults of `fullstress, cdiffelastic, cdiffsurface, cdiffstress` of the constructor. -/
+def initFlags : Bool × Bool × Bool × Bool := (true, false, true, false)
+
+/-- a fresh object `SDVPN(volterra=, gamma=)` with the flags left at their defaults. -/
+def Settings.withInitFlags (s : Settings K) : Settings K :=
+  { s with fullstress := initFlags.1, cdiffelastic := initFlags.2.1, cdiffsurface := initFlags.2.2.1, cdiffstress := initFlags.2.2.2 }
+
+/-- python names of the fields of `SolveKw`, in the order of `solve`'s signature (the keywords that enter the energy). -/
+def solveKeywords : List String :=
+  ["x", "disregistry", "tau", "alpha", "beta", "cutofflongrange", "fullstress", "cdiffelastic", "cdiffsurface", "cdiffstress"]
 
 /-- the "change attribute values if given" block of `solve`. -/
 def Obj.applyKw (o : Obj K) (kw : SolveKw K) : Obj K :=
